@@ -139,6 +139,7 @@ def decode(wire, eof, method='GET', interim=0):
             inner.extent += end
         return inner
     te = d.field('transfer-encoding')
+    ce = d.field('content-encoding')        # (of the header section: a trailer describes nothing that was decided before it, RFC 7230 4.1.2)
     cl = d.field('content-length')
     conn = (d.field('connection') or '').lower()
     if d.version == 'HTTP/1.0':
@@ -235,5 +236,5 @@ def decode(wire, eof, method='GET', interim=0):
         if not eof:
             d.error = 'incomplete'
     if d.complete:
-        d.payload, d.payload_error = decode_content(d.coded, d.field('content-encoding'))
+        d.payload, d.payload_error = decode_content(d.coded, ce)
     return d
